@@ -24,21 +24,22 @@ LEVEL_TEXT = ("see DESIGN §6 C02 and the theorem list in lean/Ctrmml/Properties
               "equal to a structured two-pass encoder in both directions (C02_convert_structured_eq and its converse for streams < 64 KiB). (2) Writer: MDSDRV_Track_Writer run over a "
               "well-formed track of the fragment emits exactly the flat event list of its events (hidden hook calls inside repeated loop passes and calls change nothing; the writer's "
               "drum-mode state follows the DRUM_MODE events in text order; a drum routine's writer stops at its first note with DMFINISH), carried "
-              "through the mutually recursive get_subroutine by an invariant. (3) Whole songs: C02_song_roundtrip_partial — for every song of the fragment (no platform "
-              "commands, macro tracks, pitch envelopes; front-end timing; called tracks without loop point and drum-mode switch; DRUM_MODE outside counted loops; every routine the "
+              "through the mutually recursive get_subroutine by an invariant. (3) Whole songs: C02_song_roundtrip_partial — for every song of the fragment (no pitch "
+              "envelope; platform commands whose events are one- or two-argument commands without index operand (or `carry`) and on which converter and timeline agree; macro tracks "
+              "(pan envelope on) included; front-end timing; called tracks without loop point and drum-mode switch; DRUM_MODE outside counted loops; every routine the "
               "converter registered = commands without time and loops of them before its first note; the loop section ends in the drum-mode state it starts in; <= 1 loop point per "
               "channel; chunk < 64 KiB) and every channel track in "
               "Timeline.inDomain, the interpreter started at the position the track table lists plays, after masking of index operands, exactly Timeline.expected (calls to any depth "
               "through the pointer table in either drum-mode state, notes in drum mode through their routines, what is replayed after the loop-back jump). Outside the fragment "
-              "(platform commands, macro tracks, pitch envelopes, optimised songs, drum mode switched inside loops / by callees = D25) "
+              "(pitch envelopes, platform `cmd` with index-bearing or unknown opcodes, optimised songs, drum mode switched inside loops / by callees = D25) "
               "the statement C02_full_statement is decided per case by the spec interpreter on the REAL bytes against Spec/Timeline; the judge marks the cases that are instances "
               "of the whole-song theorem (ok proved-fragment) and cross-checks the constructor model the theorem is stated over (MdsFile.construct) against the real bytes.")
 LEVEL_NOTE = ("Trusted: Lean kernel; Model/MdsCodec+MdsConv+MdsFile (byte-exact agreement with mdsdrv.cpp by differential testing); Spec/SeqInterp = my reconstruction of the MDSDRV "
               "sequence rules (driver source not in the repository); Spec/Timeline+Expand; instrument tables are inputs (C11 models them). Proved for all inputs: single tracks of the "
               "codec fragment, and whole songs of the fragment, drum mode included (partial: extra hypotheses = chunk < 64 KiB, at most one loop point per channel track, called tracks "
               "without loop point / drum-mode switch, drum-mode switches outside loops, routine tracks = timeless commands before the first note, loop section ending in the drum state it "
-              "starts in, no pitch envelope/macro track/platform command, acceptance by the constructor). Still decided per case by the oracle: platform commands, "
-              "macro tracks, pitch envelopes, optimised songs (D2), acceptance (that the converter accepts every encodable song). Known: D2, D24 (loop point in a called channel track), "
+              "starts in, no pitch envelope, platform commands agreeing between converter and timeline (PlatAgree), acceptance by the constructor). Still decided per case by the "
+              "oracle: pitch envelopes, exotic platform `cmd` opcodes, optimised songs (D2), acceptance (that the converter accepts every encodable song). Known: D2, D24 (loop point in a called channel track), "
               "D25 (drum mode decided in text order by the writer, in execution order by the driver).")
 RULE = ("IR songs in the encodable domain from the song grammar (1..4 channel tracks, subroutines, drum routines, loops with breaks, loop point at depth 0, commands, platform commands, "
         "instruments) + adjacency sweep: ordered triples over {explicit note, implicit-length note, tie, rest<128, rest>=128, rest=last rest, command, SEGNO, LP, LPB, LPF, PAT} x durations "
